@@ -656,8 +656,10 @@ PickBechDefect ==
 PickB58 ==
     /\ InGroup("b58")
     /\ \/ \E v \in IdBytes, l \in B58Lens, ck \in {"ok", "bad"}, sp \in BOOLEAN :
-             LET s == B58Str(v, l, ck, "none", sp)
-             IN  case' = [kind |-> "b58", s |-> s, dn |-> case.g] /\ expect' = B58Expect(s, case.g)
+             \* the accidental prefix matters only where the string is an address
+             /\ (sp => l = 20 /\ ck = "ok")
+             /\ LET s == B58Str(v, l, ck, "none", sp)
+                IN  case' = [kind |-> "b58", s |-> s, dn |-> case.g] /\ expect' = B58Expect(s, case.g)
        \/ \E df \in {"badchar", "short"} :
              LET s == CanonB58(B58Str(-1, 0, "bad", df, FALSE))
              IN  case' = [kind |-> "b58", s |-> s, dn |-> case.g] /\ expect' = B58Expect(s, case.g)
